@@ -1,5 +1,7 @@
 import PiqpProofs.Basic
 import PiqpModel.Solver
+import PiqpProofs.Properties.C13
+import PiqpProofs.Properties.C15
 
 /-!
 # C01 — SOLVED implies a valid optimality certificate
@@ -43,4 +45,651 @@ theorem solved_diagnostics_within_tolerance (st : Settings K) (cs : Consts K) (o
     (st.checkDualityGap = true → i.dualityGap < st.epsGapAbs + st.epsGapRel * i.dualityGapRel) :=
   (termTest_iff st _).mp (solved_implies_termination_test st cs ops c s info h)
 
+end Piqp.C01
+
+/-!
+## Scaling algebra: what the termination test reads is the user's certificate
+
+The loop theorems above say *when* SOLVED is returned (the termination test holds for the diagnostics in `info`). The
+theorems below say *what those diagnostics are*: under the preconditioner's change of variables (`C15.Scaled`, proved for
+`scale_data`), the unscaled residual vectors and objectives computed by `update_nr_residuals` are, entry by entry, the
+stationarity residual, the primal residuals and the objectives of the **user's** problem at the **unscaled** point.
+-/
+
+namespace Piqp.C01
+set_option linter.unusedSectionVars false
+set_option linter.unusedSimpArgs false
+set_option linter.unusedVariables false
+section algebra
+open Finset Piqp.C13 Piqp.C15
+variable {K : Type} [Field K] [LinearOrder K]
+variable {n p m : Nat}
+
+theorem Psym_scaled {d0 d : Data K n p m} {pre : Precond K n p m} (hs : Applied d0 d pre) (i j : Fin n) :
+    d.Psym[i][j] = d0.Psym[i][j] * pre.c * pre.dx[i] * pre.dx[j] := by
+  simp only [Data.Psym, C13.matOfFn_get]
+  split
+  · rename_i h; exact hs.P i j h
+  · rename_i h
+    have h' : j.val ≤ i.val := Nat.le_of_lt (Nat.lt_of_not_le h)
+    rw [hs.P j i h']; ring
+
+theorem upd_rx_nr (e : Env K n p m) (w : Work K n p m) (info : Info K) (i : Fin n) :
+    (updateNrResiduals e w info).1.rx_nr[i] =
+      -(Mat.mulVec e.data.Psym w.x)[i] - e.data.c[i] -
+        ((Mat.mulVec e.data.AT w.y)[i] + (Mat.mulVec e.data.GT w.z)[i]
+            - (e.data.lb.scatter fun a => e.data.lb.sc[a] * w.z_lb[a])[i]
+            + (e.data.ub.scatter fun a => e.data.ub.sc[a] * w.z_ub[a])[i]) := by
+  unfold updateNrResiduals
+  simp only [C13.ofFn_get]
+
+/-- the stationarity residual of the *user's* problem (data `d0`) at a point -/
+def userDualRes (d0 : Data K n p m) (x : Vec K n) (y : Vec K p) (z : Vec K m) (zl zu : Vec K n) (i : Fin n) : K :=
+  (∑ j : Fin n, d0.Psym[i][j] * x[j]) + d0.c[i] + (∑ t : Fin p, d0.AT[i][t] * y[t]) + (∑ t : Fin m, d0.GT[i][t] * z[t])
+    - (∑ a : Fin n, if a.val < d0.lb.cnt ∧ d0.lb.idx[a] = i then d0.lb.sc[a] * zl[a] else 0)
+    + (∑ a : Fin n, if a.val < d0.ub.cnt ∧ d0.ub.idx[a] = i then d0.ub.sc[a] * zu[a] else 0)
+
+
+/-- **C01/C15, the monitored dual residual is the user's.**  If the solver's data are the user's data `d0` under the
+    preconditioner's change of variables (`Scaled`, proved for `scale_data` in C15) and the inverse scalings are coherent,
+    then the residual vector whose norm the termination test reads (`unscale_dual_res(rx_nr)`) is, entry by entry, minus
+    the stationarity residual `Px + c + Aᵀy + Gᵀz − z_lb + z_ub` of the **user's** problem at the **unscaled** point
+    (`x = D x̂`, `y = c⁻¹ E_y ŷ`, …, box multipliers on their packed slots). -/
+theorem dual_residual_is_users (e : Env K n p m) (d0 : Data K n p m) (hk : e.pk ≠ .identity)
+    (hs : Scaled d0 e.data e.pre) (hi : InvFull e.pre) (w : Work K n p m) (info : Info K) (i : Fin n) :
+    (e.pre.unscaleDualRes e.pk (updateNrResiduals e w info).1.rx_nr)[i] =
+      -(userDualRes d0 (e.pre.unscalePrimal e.pk w.x) (e.pre.unscaleDualEq e.pk w.y) (e.pre.unscaleDualIneq e.pk w.z)
+          (e.pre.unscaleDualLb e.pk w.z_lb) (e.pre.unscaleDualUb e.pk w.z_ub) i) := by
+  have hc := hi.c
+  have hdx := hi.dx i
+  simp only [Precond.unscaleDualRes, Precond.unscalePrimal, Precond.unscaleDualEq, Precond.unscaleDualIneq,
+    Precond.unscaleDualLb, Precond.unscaleDualUb, hk, if_false, C13.ofFn_get, upd_rx_nr, C13.mulVec_get, C13.scatter_get,
+    userDualRes, C15.headMap_get, hs.nlb, hs.nub]
+  -- each block of the scaled residual is `c·dx_i` times the user's block
+  have eP : (∑ j : Fin n, e.data.Psym[i][j] * w.x[j]) =
+      e.pre.c * e.pre.dx[i] * ∑ j : Fin n, d0.Psym[i][j] * (w.x[j] * e.pre.dx[j]) := by
+    rw [Finset.mul_sum]
+    exact Finset.sum_congr rfl fun j _ => by rw [Psym_scaled hs.toApplied i j]; ring
+  have eA : (∑ t : Fin p, e.data.AT[i][t] * w.y[t]) =
+      e.pre.c * e.pre.dx[i] * ∑ t : Fin p, d0.AT[i][t] * (w.y[t] * e.pre.cInv * e.pre.dy[t]) := by
+    rw [Finset.mul_sum]
+    exact Finset.sum_congr rfl fun t _ => by
+      rw [hs.AT i t]; linear_combination (-(e.pre.dx[i] * d0.AT[i][t] * e.pre.dy[t] * w.y[t])) * hc
+  have eG : (∑ t : Fin m, e.data.GT[i][t] * w.z[t]) =
+      e.pre.c * e.pre.dx[i] * ∑ t : Fin m, d0.GT[i][t] * (w.z[t] * e.pre.cInv * e.pre.dz[t]) := by
+    rw [Finset.mul_sum]
+    exact Finset.sum_congr rfl fun t _ => by
+      rw [hs.GT i t]; linear_combination (-(e.pre.dx[i] * d0.GT[i][t] * e.pre.dz[t] * w.z[t])) * hc
+  have eL : (∑ a : Fin n, if e.data.lb.act a ∧ e.data.lb.idx[a] = i then e.data.lb.sc[a] * w.z_lb[a] else 0) =
+      e.pre.c * e.pre.dx[i] * ∑ a : Fin n, if a.val < d0.lb.cnt ∧ d0.lb.idx[a] = i then
+        d0.lb.sc[a] * (if a.val < d0.lb.cnt then w.z_lb[a] * e.pre.cInv * e.pre.dlb[a] else w.z_lb[a]) else 0 := by
+    rw [Finset.mul_sum]
+    refine Finset.sum_congr rfl fun a _ => ?_
+    have hiff : (e.data.lb.act a ∧ e.data.lb.idx[a] = i) ↔ (a.val < d0.lb.cnt ∧ d0.lb.idx[a] = i) := by
+      simp only [BoxSide.act, hs.lbcnt, hs.lbidx]
+    simp only [hiff]
+    by_cases h : a.val < d0.lb.cnt ∧ d0.lb.idx[a] = i
+    · simp only [h, h.1, and_self, if_true, hs.lbsc a h.1, h.2]
+      linear_combination (-(d0.lb.sc[a] * e.pre.dlb[a] * e.pre.dx[i] * w.z_lb[a])) * hc
+    · simp only [h, if_false, mul_zero]
+  have eU : (∑ a : Fin n, if e.data.ub.act a ∧ e.data.ub.idx[a] = i then e.data.ub.sc[a] * w.z_ub[a] else 0) =
+      e.pre.c * e.pre.dx[i] * ∑ a : Fin n, if a.val < d0.ub.cnt ∧ d0.ub.idx[a] = i then
+        d0.ub.sc[a] * (if a.val < d0.ub.cnt then w.z_ub[a] * e.pre.cInv * e.pre.dub[a] else w.z_ub[a]) else 0 := by
+    rw [Finset.mul_sum]
+    refine Finset.sum_congr rfl fun a _ => ?_
+    have hiff : (e.data.ub.act a ∧ e.data.ub.idx[a] = i) ↔ (a.val < d0.ub.cnt ∧ d0.ub.idx[a] = i) := by
+      simp only [BoxSide.act, hs.ubcnt, hs.ubidx]
+    simp only [hiff]
+    by_cases h : a.val < d0.ub.cnt ∧ d0.ub.idx[a] = i
+    · simp only [h, h.1, and_self, if_true, hs.ubsc a h.1, h.2]
+      linear_combination (-(d0.ub.sc[a] * e.pre.dub[a] * e.pre.dx[i] * w.z_ub[a])) * hc
+    · simp only [h, if_false, mul_zero]
+  rw [eP, eA, eG, eL, eU, hs.c i]
+  generalize (∑ j : Fin n, d0.Psym[i][j] * (w.x[j] * e.pre.dx[j])) = SP
+  generalize (∑ t : Fin p, d0.AT[i][t] * (w.y[t] * e.pre.cInv * e.pre.dy[t])) = SA
+  generalize (∑ t : Fin m, d0.GT[i][t] * (w.z[t] * e.pre.cInv * e.pre.dz[t])) = SG
+  generalize (∑ a : Fin n, if a.val < d0.lb.cnt ∧ d0.lb.idx[a] = i then
+        d0.lb.sc[a] * (if a.val < d0.lb.cnt then w.z_lb[a] * e.pre.cInv * e.pre.dlb[a] else w.z_lb[a]) else 0) = SL
+  generalize (∑ a : Fin n, if a.val < d0.ub.cnt ∧ d0.ub.idx[a] = i then
+        d0.ub.sc[a] * (if a.val < d0.ub.cnt then w.z_ub[a] * e.pre.cInv * e.pre.dub[a] else w.z_ub[a]) else 0) = SU
+  have h2 : e.pre.c * e.pre.dx[i] * (e.pre.cInv * e.pre.dxInv[i]) = 1 := by
+    calc e.pre.c * e.pre.dx[i] * (e.pre.cInv * e.pre.dxInv[i]) = (e.pre.c * e.pre.cInv) * (e.pre.dx[i] * e.pre.dxInv[i]) := by ring
+      _ = 1 := by rw [hc, hdx]; ring
+  linear_combination (-(SP + d0.c[i] + SA + SG - SL + SU)) * h2
+
+theorem upd_ry_nr (e : Env K n p m) (w : Work K n p m) (info : Info K) (t : Fin p) :
+    (updateNrResiduals e w info).1.ry_nr[t] = -(Mat.mulVecT e.data.AT w.x)[t] + e.data.b[t] := by
+  unfold updateNrResiduals
+  simp only [C13.ofFn_get]
+
+theorem upd_rz_nr (e : Env K n p m) (w : Work K n p m) (info : Info K) (t : Fin m) :
+    (updateNrResiduals e w info).1.rz_nr[t] = -(Mat.mulVecT e.data.GT w.x)[t] + (e.data.h[t] - w.s[t]) := by
+  unfold updateNrResiduals
+  simp only [C13.ofFn_get]
+
+theorem upd_rz_lb_nr (e : Env K n p m) (w : Work K n p m) (info : Info K) (a : Fin n) (ha : a.val < e.data.lb.cnt) :
+    (updateNrResiduals e w info).1.rz_lb_nr[a] =
+      e.data.lb.sc[a] * w.x[e.data.lb.idx[a]] + (e.data.lb.val[a] - w.s_lb[a]) := by
+  unfold updateNrResiduals
+  simp only [C13.headUpd_get, BoxSide.act, ha, if_true]
+
+theorem upd_rz_ub_nr (e : Env K n p m) (w : Work K n p m) (info : Info K) (a : Fin n) (ha : a.val < e.data.ub.cnt) :
+    (updateNrResiduals e w info).1.rz_ub_nr[a] =
+      -e.data.ub.sc[a] * w.x[e.data.ub.idx[a]] + (e.data.ub.val[a] - w.s_ub[a]) := by
+  unfold updateNrResiduals
+  simp only [C13.headUpd_get, BoxSide.act, ha, if_true]
+
+/-- **the monitored primal residuals are the user's**: equality rows `b − Ax`, inequality rows `h − Gx − s`, and on every
+    packed bound slot `x_j − lb_j − s_lb` (stored as `sc·x + (−lb) − s_lb`) resp. `ub_j − x_j − s_ub`, all for the user's
+    data at the unscaled point -/
+theorem primal_residuals_are_users (e : Env K n p m) (d0 : Data K n p m) (hk : e.pk ≠ .identity)
+    (hs : Scaled d0 e.data e.pre) (hi : InvFull e.pre) (w : Work K n p m) (info : Info K) :
+    let r := (updateNrResiduals e w info).1
+    let x := e.pre.unscalePrimal e.pk w.x
+    (∀ t : Fin p, (e.pre.unscalePrimalResEq e.pk r.ry_nr)[t] = d0.b[t] - ∑ i : Fin n, d0.AT[i][t] * x[i]) ∧
+    (∀ t : Fin m, (e.pre.unscalePrimalResIneq e.pk r.rz_nr)[t] =
+        d0.h[t] - (∑ i : Fin n, d0.GT[i][t] * x[i]) - (e.pre.unscaleSlackIneq e.pk w.s)[t]) ∧
+    (∀ a : Fin n, a.val < d0.lb.cnt → (e.pre.unscalePrimalResLb e.pk r.rz_lb_nr)[a] =
+        d0.lb.sc[a] * x[d0.lb.idx[a]] + d0.lb.val[a] - (e.pre.unscaleSlackLb e.pk w.s_lb)[a]) ∧
+    (∀ a : Fin n, a.val < d0.ub.cnt → (e.pre.unscalePrimalResUb e.pk r.rz_ub_nr)[a] =
+        -d0.ub.sc[a] * x[d0.ub.idx[a]] + d0.ub.val[a] - (e.pre.unscaleSlackUb e.pk w.s_ub)[a]) := by
+  refine ⟨fun t => ?_, fun t => ?_, fun a ha => ?_, fun a ha => ?_⟩
+  · have hdy := hi.dy t
+    simp only [Precond.unscalePrimalResEq, Precond.unscalePrimal, hk, if_false, C13.ofFn_get, upd_ry_nr, C13.mulVecT_get, hs.b t]
+    have eA : (∑ i : Fin n, e.data.AT[i][t] * w.x[i]) = e.pre.dy[t] * ∑ i : Fin n, d0.AT[i][t] * (w.x[i] * e.pre.dx[i]) := by
+      rw [Finset.mul_sum]
+      exact Finset.sum_congr rfl fun i _ => by rw [hs.AT i t]; ring
+    rw [eA]
+    generalize (∑ i : Fin n, d0.AT[i][t] * (w.x[i] * e.pre.dx[i])) = S
+    linear_combination (d0.b[t] - S) * hdy
+  · have hdz := hi.dz t
+    simp only [Precond.unscalePrimalResIneq, Precond.unscalePrimal, Precond.unscaleSlackIneq, hk, if_false, C13.ofFn_get, upd_rz_nr,
+      C13.mulVecT_get, hs.h t]
+    have eG : (∑ i : Fin n, e.data.GT[i][t] * w.x[i]) = e.pre.dz[t] * ∑ i : Fin n, d0.GT[i][t] * (w.x[i] * e.pre.dx[i]) := by
+      rw [Finset.mul_sum]
+      exact Finset.sum_congr rfl fun i _ => by rw [hs.GT i t]; ring
+    rw [eG]
+    generalize (∑ i : Fin n, d0.GT[i][t] * (w.x[i] * e.pre.dx[i])) = S
+    linear_combination (d0.h[t] - S) * hdz
+  · have hdl := hi.dlb a
+    have ha' : a.val < e.data.lb.cnt := by rw [hs.lbcnt]; exact ha
+    have hv := hs.lbval a
+    simp only [ha, if_true] at hv
+    simp only [Precond.unscalePrimalResLb, Precond.unscalePrimal, Precond.unscaleSlackLb, hk, if_false, C13.ofFn_get,
+      C15.headMap_get, hs.nlb, ha, if_true, upd_rz_lb_nr e w info a ha', hs.lbsc a ha, hs.lbidx, hv]
+    linear_combination (d0.lb.sc[a] * e.pre.dx[d0.lb.idx[a]] * w.x[d0.lb.idx[a]] + d0.lb.val[a]) * hdl
+  · have hdu := hi.dub a
+    have ha' : a.val < e.data.ub.cnt := by rw [hs.ubcnt]; exact ha
+    have hv := hs.ubval a
+    simp only [ha, if_true] at hv
+    simp only [Precond.unscalePrimalResUb, Precond.unscalePrimal, Precond.unscaleSlackUb, hk, if_false, C13.ofFn_get,
+      C15.headMap_get, hs.nub, ha, if_true, upd_rz_ub_nr e w info a ha', hs.ubsc a ha, hs.ubidx, hv]
+    linear_combination (-(d0.ub.sc[a] * e.pre.dx[d0.ub.idx[a]] * w.x[d0.ub.idx[a]]) + d0.ub.val[a]) * hdu
+
+theorem upd_primalObj (e : Env K n p m) (w : Work K n p m) (info : Info K) :
+    (updateNrResiduals e w info).2.primalObj =
+      e.pre.unscaleCost e.pk (e.cs.c0_5 * -(Vec.dot w.x (Vector.ofFn fun i => -(Mat.mulVec e.data.Psym w.x)[i])) + Vec.dot e.data.c w.x) := by
+  unfold updateNrResiduals; rfl
+
+theorem upd_dualObj (e : Env K n p m) (w : Work K n p m) (info : Info K) :
+    (updateNrResiduals e w info).2.dualObj =
+      e.pre.unscaleCost e.pk (-e.cs.c0_5 * -(Vec.dot w.x (Vector.ofFn fun i => -(Mat.mulVec e.data.Psym w.x)[i]))
+        - Vec.dot e.data.b w.y - Vec.dot e.data.h w.z - dotHead e.data.lb.cnt e.data.lb.val w.z_lb
+        - dotHead e.data.ub.cnt e.data.ub.val w.z_ub) := by
+  unfold updateNrResiduals; rfl
+
+/-- `xᵀPx` of the user's problem at the unscaled point -/
+def userQuad (d0 : Data K n p m) (x : Vec K n) : K := ∑ i : Fin n, x[i] * ∑ j : Fin n, d0.Psym[i][j] * x[j]
+
+theorem quad_scaled (e : Env K n p m) (d0 : Data K n p m) (hs : Scaled d0 e.data e.pre) (w : Work K n p m) :
+    -(Vec.dot w.x (Vector.ofFn fun i => -(Mat.mulVec e.data.Psym w.x)[i])) =
+      e.pre.c * userQuad d0 (Vector.ofFn fun i => w.x[i] * e.pre.dx[i]) := by
+  simp only [Vec.dot, sumFin_eq_sum, C13.ofFn_get, C13.mulVec_get, userQuad]
+  rw [Finset.mul_sum, ← Finset.sum_neg_distrib]
+  refine Finset.sum_congr rfl fun i _ => ?_
+  have : (∑ j : Fin n, e.data.Psym[i][j] * w.x[j]) = e.pre.c * e.pre.dx[i] * ∑ j : Fin n, d0.Psym[i][j] * (w.x[j] * e.pre.dx[j]) := by
+    rw [Finset.mul_sum]
+    exact Finset.sum_congr rfl fun j _ => by rw [Psym_scaled hs.toApplied i j]; ring
+  rw [this]; ring
+
+/-- **C09/C01, the reported objectives are the user's**: `primal_obj = ½·xᵀPx + cᵀx` and
+    `dual_obj = −½·xᵀPx − bᵀy − hᵀz − (−lb)ᵀz_lb − ubᵀz_ub` for the user's data at the unscaled point (with `½` the solver's
+    constant `c0_5`), including cost scaling -/
+theorem objectives_are_users (e : Env K n p m) (d0 : Data K n p m) (hk : e.pk ≠ .identity)
+    (hs : Scaled d0 e.data e.pre) (hi : InvFull e.pre) (w : Work K n p m) (info : Info K) :
+    let x := e.pre.unscalePrimal e.pk w.x
+    let y := e.pre.unscaleDualEq e.pk w.y
+    let z := e.pre.unscaleDualIneq e.pk w.z
+    let zl := e.pre.unscaleDualLb e.pk w.z_lb
+    let zu := e.pre.unscaleDualUb e.pk w.z_ub
+    (updateNrResiduals e w info).2.primalObj = e.cs.c0_5 * userQuad d0 x + ∑ i : Fin n, d0.c[i] * x[i] ∧
+    (updateNrResiduals e w info).2.dualObj = -e.cs.c0_5 * userQuad d0 x - (∑ t : Fin p, d0.b[t] * y[t]) - (∑ t : Fin m, d0.h[t] * z[t])
+        - (∑ a : Fin n, if a.val < d0.lb.cnt then d0.lb.val[a] * zl[a] else 0)
+        - (∑ a : Fin n, if a.val < d0.ub.cnt then d0.ub.val[a] * zu[a] else 0) := by
+  have hc := hi.c
+  have hq := quad_scaled e d0 hs w
+  constructor
+  · rw [upd_primalObj, hq]
+    simp only [Precond.unscaleCost, Precond.unscalePrimal, hk, if_false, Vec.dot, sumFin_eq_sum, C13.ofFn_get]
+    have eC : (∑ i : Fin n, e.data.c[i] * w.x[i]) = e.pre.c * ∑ i : Fin n, d0.c[i] * (w.x[i] * e.pre.dx[i]) := by
+      rw [Finset.mul_sum]
+      exact Finset.sum_congr rfl fun i _ => by rw [hs.c i]; ring
+    rw [eC]
+    generalize userQuad d0 (Vector.ofFn fun i => w.x[i] * e.pre.dx[i]) = Q
+    generalize (∑ i : Fin n, d0.c[i] * (w.x[i] * e.pre.dx[i])) = C
+    linear_combination (e.cs.c0_5 * Q + C) * hc
+  · rw [upd_dualObj, hq]
+    simp only [Precond.unscaleCost, Precond.unscalePrimal, Precond.unscaleDualEq, Precond.unscaleDualIneq, Precond.unscaleDualLb,
+      Precond.unscaleDualUb, hk, if_false, Vec.dot, dotHead, sumFin_eq_sum, C13.ofFn_get, C15.headMap_get, hs.nlb, hs.nub]
+    have eB : (∑ t : Fin p, e.data.b[t] * w.y[t]) = e.pre.c * ∑ t : Fin p, d0.b[t] * (w.y[t] * e.pre.cInv * e.pre.dy[t]) := by
+      rw [Finset.mul_sum]
+      exact Finset.sum_congr rfl fun t _ => by
+        rw [hs.b t]; linear_combination (-(d0.b[t] * e.pre.dy[t] * w.y[t])) * hc
+    have eH : (∑ t : Fin m, e.data.h[t] * w.z[t]) = e.pre.c * ∑ t : Fin m, d0.h[t] * (w.z[t] * e.pre.cInv * e.pre.dz[t]) := by
+      rw [Finset.mul_sum]
+      exact Finset.sum_congr rfl fun t _ => by
+        rw [hs.h t]; linear_combination (-(d0.h[t] * e.pre.dz[t] * w.z[t])) * hc
+    have eL : (∑ a : Fin n, if a.val < e.data.lb.cnt then e.data.lb.val[a] * w.z_lb[a] else 0) =
+        e.pre.c * ∑ a : Fin n, if a.val < d0.lb.cnt then
+          d0.lb.val[a] * (if a.val < d0.lb.cnt then w.z_lb[a] * e.pre.cInv * e.pre.dlb[a] else w.z_lb[a]) else 0 := by
+      rw [Finset.mul_sum]
+      refine Finset.sum_congr rfl fun a _ => ?_
+      simp only [hs.lbcnt]
+      by_cases h : a.val < d0.lb.cnt
+      · have hv := hs.lbval a
+        simp only [h, if_true] at hv ⊢
+        rw [hv]; linear_combination (-(d0.lb.val[a] * e.pre.dlb[a] * w.z_lb[a])) * hc
+      · simp only [h, if_false, mul_zero]
+    have eU : (∑ a : Fin n, if a.val < e.data.ub.cnt then e.data.ub.val[a] * w.z_ub[a] else 0) =
+        e.pre.c * ∑ a : Fin n, if a.val < d0.ub.cnt then
+          d0.ub.val[a] * (if a.val < d0.ub.cnt then w.z_ub[a] * e.pre.cInv * e.pre.dub[a] else w.z_ub[a]) else 0 := by
+      rw [Finset.mul_sum]
+      refine Finset.sum_congr rfl fun a _ => ?_
+      simp only [hs.ubcnt]
+      by_cases h : a.val < d0.ub.cnt
+      · have hv := hs.ubval a
+        simp only [h, if_true] at hv ⊢
+        rw [hv]; linear_combination (-(d0.ub.val[a] * e.pre.dub[a] * w.z_ub[a])) * hc
+      · simp only [h, if_false, mul_zero]
+    rw [eB, eH, eL, eU]
+    generalize userQuad d0 (Vector.ofFn fun i => w.x[i] * e.pre.dx[i]) = Q
+    generalize (∑ t : Fin p, d0.b[t] * (w.y[t] * e.pre.cInv * e.pre.dy[t])) = B
+    generalize (∑ t : Fin m, d0.h[t] * (w.z[t] * e.pre.cInv * e.pre.dz[t])) = H
+    generalize (∑ a : Fin n, if a.val < d0.lb.cnt then
+          d0.lb.val[a] * (if a.val < d0.lb.cnt then w.z_lb[a] * e.pre.cInv * e.pre.dlb[a] else w.z_lb[a]) else 0) = L
+    generalize (∑ a : Fin n, if a.val < d0.ub.cnt then
+          d0.ub.val[a] * (if a.val < d0.ub.cnt then w.z_ub[a] * e.pre.cInv * e.pre.dub[a] else w.z_ub[a]) else 0) = U
+    linear_combination (-e.cs.c0_5 * Q - B - H - L - U) * hc
+
+
+/-! ### Freshness: the residual fields the test reads belong to the iterate that is returned -/
+
+/-- the diagnostics `update_nr_residuals` writes into `info` -/
+def DiagEq (a b : Info K) : Prop :=
+  a.dualRelInf = b.dualRelInf ∧ a.primalRelInf = b.primalRelInf ∧ a.primalObj = b.primalObj ∧ a.dualObj = b.dualObj ∧
+  a.dualityGap = b.dualityGap ∧ a.dualityGapRel = b.dualityGapRel
+
+theorem DiagEq.refl (a : Info K) : DiagEq a a := ⟨rfl, rfl, rfl, rfl, rfl, rfl⟩
+theorem DiagEq.trans {a b c : Info K} (h1 : DiagEq a b) (h2 : DiagEq b c) : DiagEq a c :=
+  ⟨h1.1.trans h2.1, h1.2.1.trans h2.2.1, h1.2.2.1.trans h2.2.2.1, h1.2.2.2.1.trans h2.2.2.2.1,
+   h1.2.2.2.2.1.trans h2.2.2.2.2.1, h1.2.2.2.2.2.trans h2.2.2.2.2.2⟩
+theorem DiagEq.symm {a b : Info K} (h : DiagEq a b) : DiagEq b a :=
+  ⟨h.1.symm, h.2.1.symm, h.2.2.1.symm, h.2.2.2.1.symm, h.2.2.2.2.1.symm, h.2.2.2.2.2.symm⟩
+
+/-- the part of the workspace `update_nr_residuals` reads -/
+structure SameIter (w w' : Work K n p m) : Prop where
+  x : w.x = w'.x
+  y : w.y = w'.y
+  z : w.z = w'.z
+  z_lb : w.z_lb = w'.z_lb
+  z_ub : w.z_ub = w'.z_ub
+  s : w.s = w'.s
+  s_lb : w.s_lb = w'.s_lb
+  s_ub : w.s_ub = w'.s_ub
+  rzl : w.rz_lb_nr = w'.rz_lb_nr
+  rzu : w.rz_ub_nr = w'.rz_ub_nr
+
+/-- the non-regularised residual fields -/
+structure SameNr (w w' : Work K n p m) : Prop where
+  rx : w.rx_nr = w'.rx_nr
+  ry : w.ry_nr = w'.ry_nr
+  rz : w.rz_nr = w'.rz_nr
+  rzl : w.rz_lb_nr = w'.rz_lb_nr
+  rzu : w.rz_ub_nr = w'.rz_ub_nr
+
+theorem upd_congr (e : Env K n p m) (w w' : Work K n p m) (info info' : Info K) (h : SameIter w w') :
+    SameNr (updateNrResiduals e w info).1 (updateNrResiduals e w' info').1 ∧
+    DiagEq (updateNrResiduals e w info).2 (updateNrResiduals e w' info').2 := by
+  unfold updateNrResiduals
+  simp only [h.x, h.y, h.z, h.z_lb, h.z_ub, h.s, h.s_lb, h.s_ub, h.rzl, h.rzu]
+  exact ⟨⟨rfl, rfl, rfl, rfl, rfl⟩, ⟨rfl, rfl, rfl, rfl, rfl, rfl⟩⟩
+
+theorem upd_sameIter (e : Env K n p m) (w : Work K n p m) (info : Info K) :
+    let r := (updateNrResiduals e w info).1
+    r.x = w.x ∧ r.y = w.y ∧ r.z = w.z ∧ r.z_lb = w.z_lb ∧ r.z_ub = w.z_ub ∧ r.s = w.s ∧ r.s_lb = w.s_lb ∧ r.s_ub = w.s_ub := by
+  unfold updateNrResiduals
+  exact ⟨rfl, rfl, rfl, rfl, rfl, rfl, rfl, rfl⟩
+
+theorem headUpd_absorb (b : BoxSide K n) (old : Vec K n) (f g : Fin n → K) :
+    b.headUpd (b.headUpd old g) f = b.headUpd old f := by
+  apply Vector.ext
+  intro i hi
+  have := C13.headUpd_get b (b.headUpd old g) f ⟨i, hi⟩
+  have h2 := C13.headUpd_get b old f ⟨i, hi⟩
+  have h3 := C13.headUpd_get b old g ⟨i, hi⟩
+  simp only [Fin.getElem_fin] at this h2 h3
+  rw [this, h2]
+  split
+  · rfl
+  · rw [h3]; rename_i h; simp only [h, if_false]
+
+/-- `update_nr_residuals` is idempotent: recomputing at the same iterate changes no residual field and no diagnostic -/
+theorem upd_idem (e : Env K n p m) (w : Work K n p m) (info : Info K) :
+    SameNr (updateNrResiduals e (updateNrResiduals e w info).1 (updateNrResiduals e w info).2).1 (updateNrResiduals e w info).1 ∧
+    DiagEq (updateNrResiduals e (updateNrResiduals e w info).1 (updateNrResiduals e w info).2).2 (updateNrResiduals e w info).2 := by
+  unfold updateNrResiduals
+  simp only [headUpd_absorb]
+  exact ⟨⟨rfl, rfl, rfl, rfl, rfl⟩, ⟨rfl, rfl, rfl, rfl, rfl, rfl⟩⟩
+
+theorem SameNr.symm {w w' : Work K n p m} (h : SameNr w w') : SameNr w' w := ⟨h.rx.symm, h.ry.symm, h.rz.symm, h.rzl.symm, h.rzu.symm⟩
+theorem SameNr.trans {a b c : Work K n p m} (h1 : SameNr a b) (h2 : SameNr b c) : SameNr a c :=
+  ⟨h1.rx.trans h2.rx, h1.ry.trans h2.ry, h1.rz.trans h2.rz, h1.rzl.trans h2.rzl, h1.rzu.trans h2.rzu⟩
+
+/-- the residual fields and diagnostics stored with the iterate are the ones `update_nr_residuals` computes for it -/
+structure Fresh (e : Env K n p m) (w : Work K n p m) (info : Info K) : Prop where
+  nr : SameNr (updateNrResiduals e w info).1 w
+  diag : DiagEq (updateNrResiduals e w info).2 info
+
+theorem Fresh.congr {e : Env K n p m} {w w' : Work K n p m} {info info' : Info K} (h : Fresh e w info)
+    (hi : SameIter w w') (hn : SameNr w w') (hd : DiagEq info info') : Fresh e w' info' := by
+  obtain ⟨c1, c2⟩ := upd_congr e w w' info info' hi
+  exact ⟨c1.symm.trans (h.nr.trans hn), c2.symm.trans (h.diag.trans hd)⟩
+
+theorem fresh_upd (e : Env K n p m) (w : Work K n p m) (info : Info K) :
+    Fresh e (updateNrResiduals e w info).1 (updateNrResiduals e w info).2 :=
+  ⟨(upd_idem e w info).1, (upd_idem e w info).2⟩
+
+theorem primalInfNr_congr (e : Env K n p m) {w w' : Work K n p m} (h : SameNr w w') : primalInfNr e w = primalInfNr e w' := by
+  unfold primalInfNr; rw [h.ry, h.rz, h.rzl, h.rzu]
+
+theorem dualInfNr_congr (e : Env K n p m) {w w' : Work K n p m} (h : SameNr w w') : dualInfNr e w = dualInfNr e w' := by
+  unfold dualInfNr; rw [h.rx]
+
+theorem termTest_congr (st : Settings K) (a b : Info K) (h1 : a.primalInf = b.primalInf) (h2 : a.dualInf = b.dualInf)
+    (hd : DiagEq a b) : termTest st a = termTest st b := by
+  unfold termTest
+  rw [h1, h2, hd.1, hd.2.1, hd.2.2.2.2.1, hd.2.2.2.2.2]
+
+/-- the termination test is known to fail for the residual fields stored with this iterate -/
+def Dead (e : Env K n p m) (w : Work K n p m) (info : Info K) : Prop :=
+  termTest e.st { info with primalInf := primalInfNr e w, dualInf := dualInfNr e w } = false
+
+theorem head_spec (e : Env K n p m) (b : Bool) (w : Work K n p m) (info : Info K)
+    (hJ : b = true ∨ Fresh e w info ∨ Dead e w info) (ht : termTest e.st (headInfo e b w info).2 = true) :
+    Fresh e (headInfo e b w info).1 (headInfo e b w info).2 ∧
+    (headInfo e b w info).2.primalInf = primalInfNr e (headInfo e b w info).1 ∧
+    (headInfo e b w info).2.dualInf = dualInfNr e (headInfo e b w info).1 := by
+  cases b
+  · rcases hJ with h | h | h
+    · exact absurd h (by simp)
+    · exact ⟨h.congr ⟨rfl, rfl, rfl, rfl, rfl, rfl, rfl, rfl, rfl, rfl⟩ ⟨rfl, rfl, rfl, rfl, rfl⟩ ⟨rfl, rfl, rfl, rfl, rfl, rfl⟩, rfl, rfl⟩
+    · unfold Dead at h
+      have : termTest e.st (headInfo e false w info).2 = false := h
+      rw [this] at ht; exact absurd ht (by simp)
+  · exact ⟨(fresh_upd e w info).congr ⟨rfl, rfl, rfl, rfl, rfl, rfl, rfl, rfl, rfl, rfl⟩ ⟨rfl, rfl, rfl, rfl, rfl⟩ ⟨rfl, rfl, rfl, rfl, rfl, rfl⟩, rfl, rfl⟩
+
+theorem head_dead (e : Env K n p m) (b : Bool) (w : Work K n p m) (info : Info K)
+    (ht : termTest e.st (headInfo e b w info).2 = false) (w' : Work K n p m) (info' : Info K)
+    (hn : SameNr (headInfo e b w info).1 w') (hd : DiagEq (headInfo e b w info).2 info') : Dead e w' info' := by
+  unfold Dead
+  rw [← ht]
+  apply termTest_congr
+  · show primalInfNr e w' = (headInfo e b w info).2.primalInf
+    rw [← primalInfNr_congr e hn]; cases b <;> rfl
+  · show dualInfNr e w' = (headInfo e b w info).2.dualInf
+    rw [← dualInfNr_congr e hn]; cases b <;> rfl
+  · exact ⟨hd.1.symm, hd.2.1.symm, hd.2.2.1.symm, hd.2.2.2.1.symm, hd.2.2.2.2.1.symm, hd.2.2.2.2.2.symm⟩
+
+theorem shift_same (e : Env K n p m) (w : Work K n p m) (info : Info K) :
+    SameNr w (shiftOp e w info).1 ∧ DiagEq info (shiftOp e w info).2 := by
+  unfold shiftOp
+  refine ⟨⟨rfl, rfl, rfl, rfl, rfl⟩, ?_⟩
+  simp only
+  split <;> exact ⟨rfl, rfl, rfl, rfl, rfl, rfl⟩
+
+theorem finetune_diag (st : Settings K) (info : Info K) : DiagEq info (finetuneSwitch st info) := by
+  unfold finetuneSwitch
+  simp only
+  split <;> exact ⟨rfl, rfl, rfl, rfl, rfl, rfl⟩
+
+theorem bumpReg_diag (st : Settings K) (cs : Consts K) (info : Info K) : DiagEq info (bumpRegS st cs info) :=
+  ⟨rfl, rfl, rfl, rfl, rfl, rfl⟩
+
+theorem regUpdateIneq_diag (st : Settings K) (cs : Consts K) (info : Info K) (a b c d f g : K) :
+    DiagEq info (regUpdateIneq st cs info a b c d f g).1 := by
+  unfold regUpdateIneq
+  simp only
+  split <;> split <;> exact ⟨rfl, rfl, rfl, rfl, rfl, rfl⟩
+
+theorem regUpdateEq_diag (cs : Consts K) (info : Info K) (a b : K) : DiagEq info (regUpdateEq cs info a b).1 := by
+  unfold regUpdateEq
+  simp only
+  split <;> split <;> exact ⟨rfl, rfl, rfl, rfl, rfl, rfl⟩
+
+theorem stepNum_fresh (e : Env K n p m) (b : Bool) (kkt : KKT K n p m) (w : Work K n p m) (info : Info K) :
+    Fresh e (stepNumOp e b kkt w info).1 (stepNumOp e b kkt w info).2.1 := by
+  unfold stepNumOp
+  by_cases hm : m + e.data.lb.cnt + e.data.ub.cnt ≠ 0
+  · simp only [hm, ne_eq, not_false_eq_true, if_true]
+    exact fresh_upd e _ _
+  · simp only [hm, if_false]
+    exact fresh_upd e _ _
+
+theorem applyFlags_same (e : Env K n p m) (w : Work K n p m) (a b : Bool) :
+    SameIter w (applyFlagsOp e w a b) ∧ SameNr w (applyFlagsOp e w a b) := by
+  unfold applyFlagsOp
+  cases a <;> cases b <;> simp only [Bool.false_eq_true, if_false, if_true]
+  · exact ⟨⟨rfl, rfl, rfl, rfl, rfl, rfl, rfl, rfl, rfl, rfl⟩, ⟨rfl, rfl, rfl, rfl, rfl⟩⟩
+  · split <;> exact ⟨⟨rfl, rfl, rfl, rfl, rfl, rfl, rfl, rfl, rfl, rfl⟩, ⟨rfl, rfl, rfl, rfl, rfl⟩⟩
+  · exact ⟨⟨rfl, rfl, rfl, rfl, rfl, rfl, rfl, rfl, rfl, rfl⟩, ⟨rfl, rfl, rfl, rfl, rfl⟩⟩
+  · split <;> exact ⟨⟨rfl, rfl, rfl, rfl, rfl, rfl, rfl, rfl, rfl, rfl⟩, ⟨rfl, rfl, rfl, rfl, rfl⟩⟩
+
+theorem after_fail_dead (e : Env K n p m) (b : Bool) (w : Work K n p m) (info : Info K)
+    (ht : ¬ termTest e.st (headInfo e b w info).2 = true) (info' : Info K)
+    (hd : DiagEq (finetuneSwitch e.st
+      (shiftOp e (regResiduals e (headInfo e b w info).1 (headInfo e b w info).2) (headInfo e b w info).2).2) info') :
+    Dead e (shiftOp e (regResiduals e (headInfo e b w info).1 (headInfo e b w info).2) (headInfo e b w info).2).1 info' := by
+  have ht' : termTest e.st (headInfo e b w info).2 = false := by simpa using ht
+  have hs := shift_same e (regResiduals e (headInfo e b w info).1 (headInfo e b w info).2) (headInfo e b w info).2
+  refine head_dead e b w info ht' _ _ ?_ ?_
+  · exact (⟨rfl, rfl, rfl, rfl, rfl⟩ : SameNr (headInfo e b w info).1 (regResiduals e (headInfo e b w info).1 (headInfo e b w info).2)).trans hs.1
+  · exact (hs.2.trans (finetune_diag e.st _)).trans hd
+
+theorem loop_solved_fresh (e : Env K n p m) (c : Ctrl) (s : NumState K n p m) (info : Info K)
+    (hJ : c.iter = 0 ∨ Fresh e s.1 info ∨ Dead e s.1 info)
+    (h : (loopG e.st e.cs (realOps e) c s info).2 = Status.solved) :
+    Fresh e (loopG e.st e.cs (realOps e) c s info).1.2.1.1 (loopG e.st e.cs (realOps e) c s info).1.2.2 ∧
+    (loopG e.st e.cs (realOps e) c s info).1.2.2.primalInf = primalInfNr e (loopG e.st e.cs (realOps e) c s info).1.2.1.1 ∧
+    (loopG e.st e.cs (realOps e) c s info).1.2.2.dualInf = dualInfNr e (loopG e.st e.cs (realOps e) c s info).1.2.1.1 := by
+  fun_induction loopG e.st e.cs (realOps e) c s info
+  case case1 c s info hlt hi htest =>
+    have hb : (c.iter == 0) = true ∨ Fresh e s.1 info ∨ Dead e s.1 info := by
+      rcases hJ with h | h | h
+      · left; simp [h]
+      · right; left; exact h
+      · right; right; exact h
+    have hs := head_spec e (c.iter == 0) s.1 info hb htest
+    exact ⟨hs.1.congr ⟨rfl, rfl, rfl, rfl, rfl, rfl, rfl, rfl, rfl, rfl⟩ ⟨rfl, rfl, rfl, rfl, rfl⟩ ⟨rfl, rfl, rfl, rfl, rfl, rfl⟩, hs.2.1, hs.2.2⟩
+  case case2 => exact absurd h (by simp)
+  case case3 => exact absurd h (by simp)
+  case case7 => exact absurd h (by simp)
+  case case8 => exact absurd h (by simp)
+  case case4 c s info hlt hi htest s1 hp hd iter1 sh info2 s2 fa hfa sn info3 ru s4 ih =>
+    refine ih (Or.inr (Or.inl ?_)) h
+    have hf := stepNum_fresh e c.refineOn fa.1.2 fa.1.1
+      { info2 with iter := iter1, factorRetires := 0 }
+    have ha := applyFlags_same e sn.1.1 ru.2.1 ru.2.2
+    have hd : DiagEq info3 ru.1 := by
+      simp only [ru]
+      split
+      · exact regUpdateIneq_diag _ _ _ _ _ _ _ _ _
+      · exact regUpdateEq_diag _ _ _ _
+    exact hf.congr ha.1 ha.2 hd
+  case case5 c s info hlt hi htest s1 hp hd iter1 sh info2 s2 fa hfa hr ih =>
+    refine ih (Or.inr (Or.inr ?_)) h
+    exact after_fail_dead e (c.iter == 0) s.1 info htest _ ⟨rfl, rfl, rfl, rfl, rfl, rfl⟩
+  case case6 c s info hlt hi htest s1 hp hd sh info2 s2 fa hfa hr hf ih =>
+    refine ih ?_ h
+    rcases hJ with h0 | _ | _
+    · exact Or.inl h0
+    all_goals
+      exact Or.inr (Or.inr (after_fail_dead e (c.iter == 0) s.1 info htest _
+        (DiagEq.trans (a := info2) (b := { info2 with iter := c.iter, factorRetires := c.factorRetires + 1 })
+          ⟨rfl, rfl, rfl, rfl, rfl, rfl⟩ (bumpReg_diag e.st e.cs _))))
+
+section norms
+variable [IsStrictOrderedRing K]
+
+theorem le_vmax_left' (a b : K) : a ≤ vmax a b := by
+  unfold vmax; split
+  · rename_i h; exact le_of_lt h
+  · exact le_refl a
+theorem le_vmax_right' (a b : K) : b ≤ vmax a b := by
+  unfold vmax; split
+  · exact le_refl b
+  · rename_i h; exact not_lt.mp h
+
+theorem le_maxFin (init : K) : ∀ (q : Nat) (f : Fin q → K) (i : Fin q), f i ≤ maxFin init q f
+  | 0, _, i => i.elim0
+  | q + 1, f, i => by
+    simp only [maxFin]
+    rcases Fin.eq_castSucc_or_eq_last i with ⟨j, rfl⟩ | rfl
+    · exact le_trans (le_maxFin init q (fun i => f i.castSucc) j) (le_vmax_left' _ _)
+    · exact le_vmax_right' _ _
+
+theorem vabs_le_infNorm {q : Nat} (v : Vec K q) (i : Fin q) : vabs v[i] ≤ Vec.infNorm v := by
+  unfold Vec.infNorm
+  have hq : 0 < q := Nat.lt_of_le_of_lt (Nat.zero_le _) i.isLt
+  simp only [hq, dif_pos]
+  have := le_maxFin (vabs (v[0]'hq)) q (fun j => if j.val = 0 then vabs (v[0]'hq) else vabs v[j]) i
+  by_cases h0 : i.val = 0
+  · simp only [h0, if_true] at this
+    have e : v[i] = v[0]'hq := by simp only [Fin.getElem_fin, h0]
+    rw [e]; exact this
+  · simp only [h0, if_false] at this; exact this
+
+theorem vabs_le_headInfNorm {q : Nat} (cnt : Nat) (v : Vec K q) (i : Fin q) (hi : i.val < cnt) :
+    vabs v[i] ≤ Vec.headInfNorm cnt v := by
+  unfold Vec.headInfNorm
+  have hq : 0 < q := Nat.lt_of_le_of_lt (Nat.zero_le _) i.isLt
+  have hc : 0 < cnt := Nat.lt_of_le_of_lt (Nat.zero_le _) hi
+  simp only [hq, hc, and_self, dif_pos]
+  have := le_maxFin (vabs (v[0]'hq)) q (fun j => if j.val = 0 ∨ cnt ≤ j.val then vabs (v[0]'hq) else vabs v[j]) i
+  by_cases h0 : i.val = 0
+  · simp only [h0, true_or, if_true] at this
+    have e : v[i] = v[0]'hq := by simp only [Fin.getElem_fin, h0]
+    rw [e]; exact this
+  · have : ¬ (i.val = 0 ∨ cnt ≤ i.val) := by omega
+    rename_i h1
+    simp only [this, if_false] at h1; exact h1
+
+theorem vabs_neg (a : K) : vabs (-a) = vabs a := by
+  unfold vabs
+  by_cases h : a < 0
+  · have : ¬ (-a < 0) := by simp; exact le_of_lt h
+    simp [h, this]
+  · by_cases h2 : -a < 0
+    · simp [h, h2]
+    · have : a = 0 := le_antisymm (by simpa using h2) (not_lt.mp h)
+      simp [this]
+end norms
+
+section certificate
+variable [IsStrictOrderedRing K]
+
+/-- **C01, SOLVED implies a certificate for the user's problem (exact arithmetic).**
+    For every back end (the numeric operations are those of `realOps e`, whose inner factorisation `e.inner` is arbitrary),
+    every factorisation-failure pattern, refinement on or off: if the preconditioner state is a coherent change of variables
+    of the user's data `d0` (`Scaled` + `InvFull`, which C15 proves `scale_data` establishes) and the main loop started at
+    iteration 0 returns SOLVED, then at the returned iterate, **unscaled**,
+    * every entry of the stationarity residual of the user's problem is below `ε_abs + ε_rel·dual_rel_inf`,
+    * every equality/inequality row and every packed bound slot of the user's primal residual is below
+      `ε_abs + ε_rel·primal_rel_inf`,
+    * if requested, the reported duality gap is below its tolerance,
+    * and the reported objectives are the user's primal and dual objectives at that point. -/
+theorem solved_certificate (e : Env K n p m) (d0 : Data K n p m) (hk : e.pk ≠ .identity)
+    (hs : Scaled d0 e.data e.pre) (hi : InvFull e.pre) (ls : LoopState K n p m) (h0 : ls.c.iter = 0)
+    (hsolved : (mainLoop e ls).2 = Status.solved) :
+    let w := (mainLoop e ls).1.w
+    let info := (mainLoop e ls).1.info
+    let x := e.pre.unscalePrimal e.pk w.x
+    let y := e.pre.unscaleDualEq e.pk w.y
+    let z := e.pre.unscaleDualIneq e.pk w.z
+    let zl := e.pre.unscaleDualLb e.pk w.z_lb
+    let zu := e.pre.unscaleDualUb e.pk w.z_ub
+    (∀ i : Fin n, vabs (userDualRes d0 x y z zl zu i) < e.st.epsAbs + e.st.epsRel * info.dualRelInf) ∧
+    (∀ t : Fin p, vabs (d0.b[t] - ∑ i : Fin n, d0.AT[i][t] * x[i]) < e.st.epsAbs + e.st.epsRel * info.primalRelInf) ∧
+    (∀ t : Fin m, vabs (d0.h[t] - (∑ i : Fin n, d0.GT[i][t] * x[i]) - (e.pre.unscaleSlackIneq e.pk w.s)[t])
+        < e.st.epsAbs + e.st.epsRel * info.primalRelInf) ∧
+    (∀ a : Fin n, a.val < d0.lb.cnt →
+        vabs (d0.lb.sc[a] * x[d0.lb.idx[a]] + d0.lb.val[a] - (e.pre.unscaleSlackLb e.pk w.s_lb)[a])
+          < e.st.epsAbs + e.st.epsRel * info.primalRelInf) ∧
+    (∀ a : Fin n, a.val < d0.ub.cnt →
+        vabs (-d0.ub.sc[a] * x[d0.ub.idx[a]] + d0.ub.val[a] - (e.pre.unscaleSlackUb e.pk w.s_ub)[a])
+          < e.st.epsAbs + e.st.epsRel * info.primalRelInf) ∧
+    (e.st.checkDualityGap = true → info.dualityGap < e.st.epsGapAbs + e.st.epsGapRel * info.dualityGapRel) ∧
+    info.primalObj = e.cs.c0_5 * userQuad d0 x + ∑ i : Fin n, d0.c[i] * x[i] := by
+  intro w info x y z zl zu
+  have hloop : (loopG e.st e.cs (realOps e) ls.c (ls.w, ls.kkt) ls.info).2 = Status.solved := hsolved
+  obtain ⟨hfresh, hpinf, hdinf⟩ := loop_solved_fresh e ls.c (ls.w, ls.kkt) ls.info (Or.inl h0) hloop
+  have htest := solved_diagnostics_within_tolerance e.st e.cs (realOps e) ls.c (ls.w, ls.kkt) ls.info hloop
+  obtain ⟨t1, t2, t3⟩ := htest
+  change Fresh e w info at hfresh
+  change info.primalInf = primalInfNr e w at hpinf
+  change info.dualInf = dualInfNr e w at hdinf
+  change info.primalInf < e.st.epsAbs + e.st.epsRel * info.primalRelInf at t1
+  change info.dualInf < e.st.epsAbs + e.st.epsRel * info.dualRelInf at t2
+  have hP := primal_residuals_are_users e d0 hk hs hi w info
+  obtain ⟨pe, pi, pl, pu⟩ := hP
+  refine ⟨fun i => ?_, fun t => ?_, fun t => ?_, fun a ha => ?_, fun a ha => ?_, t3, ?_⟩
+  · have := dual_residual_is_users e d0 hk hs hi w info i
+    rw [hfresh.nr.rx] at this
+    have hle := vabs_le_infNorm (e.pre.unscaleDualRes e.pk w.rx_nr) i
+    rw [this, vabs_neg] at hle
+    exact lt_of_le_of_lt hle (by rw [← show info.dualInf = Vec.infNorm (e.pre.unscaleDualRes e.pk w.rx_nr) from hdinf]; exact t2)
+  · have := pe t
+    rw [hfresh.nr.ry] at this
+    have hle := vabs_le_infNorm (e.pre.unscalePrimalResEq e.pk w.ry_nr) t
+    rw [this] at hle
+    refine lt_of_le_of_lt (le_trans hle ?_) (hpinf ▸ t1)
+    unfold primalInfNr primalInfOf
+    exact le_trans (le_trans (le_vmax_left' _ _) (le_vmax_left' _ _)) (le_vmax_left' _ _)
+  · have := pi t
+    rw [hfresh.nr.rz] at this
+    have hle := vabs_le_infNorm (e.pre.unscalePrimalResIneq e.pk w.rz_nr) t
+    rw [this] at hle
+    refine lt_of_le_of_lt (le_trans hle ?_) (hpinf ▸ t1)
+    unfold primalInfNr primalInfOf
+    exact le_trans (le_trans (le_vmax_right' _ _) (le_vmax_left' _ _)) (le_vmax_left' _ _)
+  · have := pl a ha
+    rw [hfresh.nr.rzl] at this
+    have ha' : a.val < e.data.lb.cnt := by rw [hs.lbcnt]; exact ha
+    have hle := vabs_le_headInfNorm e.data.lb.cnt (e.pre.unscalePrimalResLb e.pk w.rz_lb_nr) a ha'
+    rw [this] at hle
+    refine lt_of_le_of_lt (le_trans hle ?_) (hpinf ▸ t1)
+    unfold primalInfNr primalInfOf
+    exact le_trans (le_vmax_right' _ _) (le_vmax_left' _ _)
+  · have := pu a ha
+    rw [hfresh.nr.rzu] at this
+    have ha' : a.val < e.data.ub.cnt := by rw [hs.ubcnt]; exact ha
+    have hle := vabs_le_headInfNorm e.data.ub.cnt (e.pre.unscalePrimalResUb e.pk w.rz_ub_nr) a ha'
+    rw [this] at hle
+    refine lt_of_le_of_lt (le_trans hle ?_) (hpinf ▸ t1)
+    unfold primalInfNr primalInfOf
+    exact le_vmax_right' _ _
+  · rw [← hfresh.diag.2.2.1]
+    exact (objectives_are_users e d0 hk hs hi w info).1
+end certificate
+
+end algebra
 end Piqp.C01
